@@ -2,6 +2,14 @@
 // It is evaluated on the facts of the (transaction, document) pair AS SENT and on the documents the node accepted.
 package c09
 
+import (
+	"crypto/sha256"
+	"encoding/base64"
+	"encoding/json"
+	"fmt"
+	"strings"
+)
+
 // mver is one accepted document version, as sent.
 type mver struct {
 	Doc docSpec
@@ -9,14 +17,14 @@ type mver struct {
 
 func (v mver) capInv() map[int]bool {
 	m := map[int]bool{}
-	if !wellFormed(v.Doc) || v.Doc.Deact {
+	if wf, _ := wellFormed(v.Doc); !wf || v.Doc.Deact {
 		return m
 	}
 	for _, k := range v.Doc.CapInv {
 		m[k] = true
 	}
-	if e := v.Doc.Embed; e != nil && e.Rel == "capabilityInvocation" {
-		m[e.Key] = true
+	if x := v.Doc.Extra; x != nil && x.Kind == "embedded" && x.Rel == "capabilityInvocation" {
+		m[3] = true
 	}
 	return m
 }
@@ -27,19 +35,152 @@ type model struct {
 	versions [nDIDs][]mver
 }
 
-// wellFormed: DID-core context, ids prefixed by the DID and unique, key ids equal to key thumbprints (also for
-// methods embedded in a relationship), at most one service per type. The harness builds every document from a
-// valid one by at most one named defect, so the predicate is "no defect".
-func wellFormed(d docSpec) bool { return d.Invalid == "" || d.Invalid == "embedded-valid" }
+// wellFormed judges the document AS SENT (the JSON payload), with a parser of its own:
+// DID-core context and id; controllers non-empty; every verificationMethod entry and every method embedded in a
+// relationship has id = <document DID> + '#' + <thumbprint of its key> (the part before the FIRST '#' must be the
+// document DID character for character, the rest must be the RFC 7638 thumbprint); verificationMethod ids unique;
+// string entries of a relationship name a listed method; every service id = <document DID> + '#' + non-empty
+// fragment, service ids unique, at most one service per type.
+// Deliberately admitted (the statement does not forbid it clearly): a service fragment that itself contains '#'.
+func wellFormed(d docSpec) (bool, string) {
+	if d.Invalid == "" && d.Extra == nil {
+		return true, "" // plain valid templates (fast path; the predicate below agrees, checked at start-up)
+	}
+	return wellFormedPayload(buildPayload(d))
+}
+
+func ecThumbprint(jwk map[string]any) string {
+	s := func(k string) string { v, _ := jwk[k].(string); return v }
+	b, _ := json.Marshal(s("crv"))
+	x, _ := json.Marshal(s("x"))
+	y, _ := json.Marshal(s("y"))
+	sum := sha256.Sum256([]byte(`{"crv":` + string(b) + `,"kty":"EC","x":` + string(x) + `,"y":` + string(y) + `}`))
+	return base64.RawURLEncoding.EncodeToString(sum[:])
+}
+
+func entryIDOK(id, docID string) (frag string, why string) {
+	i := strings.Index(id, "#")
+	if i < 0 {
+		return "", "id has no fragment"
+	}
+	if id[:i] != docID {
+		return "", fmt.Sprintf("id without fragment is %q, not the document DID", id[:i])
+	}
+	if id[i+1:] == "" {
+		return "", "empty fragment"
+	}
+	return id[i+1:], ""
+}
+
+func methodOK(m map[string]any, docID string) string {
+	id, _ := m["id"].(string)
+	frag, why := entryIDOK(id, docID)
+	if why != "" {
+		return why
+	}
+	jwk, ok := m["publicKeyJwk"].(map[string]any)
+	if !ok || jwk["kty"] != "EC" {
+		return "no EC publicKeyJwk"
+	}
+	if frag != ecThumbprint(jwk) {
+		return "fragment is not the thumbprint of the key"
+	}
+	return ""
+}
+
+func wellFormedPayload(payload []byte) (bool, string) {
+	var doc map[string]any
+	if err := json.Unmarshal(payload, &doc); err != nil {
+		return false, "not JSON"
+	}
+	list := func(v any) []any {
+		switch x := v.(type) {
+		case nil:
+			return nil
+		case []any:
+			return x
+		}
+		return []any{v}
+	}
+	hasCtx := false
+	for _, c := range list(doc["@context"]) {
+		hasCtx = hasCtx || c == "https://www.w3.org/ns/did/v1"
+	}
+	if !hasCtx {
+		return false, "DID-core context missing"
+	}
+	docID, _ := doc["id"].(string)
+	if !strings.HasPrefix(docID, "did:nuts:") || strings.ContainsAny(docID, "#/?;") {
+		return false, "document id is not a did:nuts DID"
+	}
+	for _, c := range list(doc["controller"]) {
+		if s, _ := c.(string); s == "" {
+			return false, "empty controller"
+		}
+	}
+	listed := map[string]bool{}
+	for _, v := range list(doc["verificationMethod"]) {
+		m, ok := v.(map[string]any)
+		if !ok {
+			return false, "verificationMethod entry is not an object"
+		}
+		if why := methodOK(m, docID); why != "" {
+			return false, "verificationMethod: " + why
+		}
+		if listed[m["id"].(string)] {
+			return false, "verificationMethod: duplicate id"
+		}
+		listed[m["id"].(string)] = true
+	}
+	for _, rel := range []string{"authentication", "assertionMethod", "keyAgreement", "capabilityInvocation", "capabilityDelegation"} {
+		for _, v := range list(doc[rel]) {
+			switch x := v.(type) {
+			case string:
+				if !listed[x] {
+					return false, rel + ": reference to a method that is not listed"
+				}
+			case map[string]any:
+				if why := methodOK(x, docID); why != "" {
+					return false, rel + " (embedded): " + why
+				}
+			default:
+				return false, rel + ": entry is neither reference nor method"
+			}
+		}
+	}
+	ids, types := map[string]bool{}, map[string]bool{}
+	for _, v := range list(doc["service"]) {
+		m, ok := v.(map[string]any)
+		if !ok {
+			return false, "service entry is not an object"
+		}
+		id, _ := m["id"].(string)
+		if _, why := entryIDOK(id, docID); why != "" {
+			return false, "service: " + why
+		}
+		typ, _ := m["type"].(string)
+		if ids[id] {
+			return false, "service: duplicate id"
+		}
+		if types[typ] {
+			return false, "service: more than one service of a type"
+		}
+		ids[id], types[typ] = true, true
+	}
+	return true, ""
+}
 
 // create: the DID equals the thumbprint of the embedded key (DID i is derived from key i).
-func (m *model) acceptCreate(e event) bool { return wellFormed(e.Doc) && e.SignKey == e.Doc.DID }
+func (m *model) acceptCreate(e event) bool {
+	wf, _ := wellFormed(e.Doc)
+	return wf && e.SignKey == e.Doc.DID
+}
 
 // tier 1 (any history, any prevs): the signing key is a capabilityInvocation key of SOME accepted version of the DID
 // itself or of a DID that SOME accepted version names as controller. Deliberately permissive.
 func (m *model) acceptUpdateTier1(e event) bool {
 	t := e.Doc.DID
-	if !wellFormed(e.Doc) || len(m.versions[t]) == 0 {
+	if wf, _ := wellFormed(e.Doc); !wf || len(m.versions[t]) == 0 {
 		return false
 	}
 	ctrl := map[int]bool{t: true}
@@ -63,7 +204,7 @@ func (m *model) acceptUpdateTier1(e event) bool {
 // no controller or names itself).
 func (m *model) acceptUpdateTier2(e event) bool {
 	t := e.Doc.DID
-	if !wellFormed(e.Doc) || len(m.versions[t]) == 0 {
+	if wf, _ := wellFormed(e.Doc); !wf || len(m.versions[t]) == 0 {
 		return false
 	}
 	for _, leaf := range m.leaves(t) {
